@@ -27,12 +27,21 @@ TRUSTED = [
     "invoke_finish_loop(owned), renew = xor DIRTY on a dirty word, suspend-field writes = suspend_loop / resume_loop(is_source=1) / "
     "resume_activate_loop; the exchange and the handler marks are accepted only between the thread's own lock and unlock",
     "ties of (B): every dq_state transition is a generated body (field-level specifications Proofs/Lane_fields.v, SLaneS_fields.v, "
-    "resume_src_fields); its control flow is the same case split as (A) but the two are NOT related by a machine-checked "
-    "refinement, and recorded traces are not replayed through (B) itself: modelled-not-verified beyond the word functions and "
-    "their parameters",
+    "resume_src_fields); and every recorded round of the stress harness is replayed as a run of SrcLane.begin / SrcLane.gstep "
+    "(Model/SrcLaneR.v, lib/props/c15_replay.py): per thread the recorded operations are read as model actions with their recorded "
+    "outcome (untrusted, but strict: every successful write of dq_state and ds_pending_data, every handler and call mark must be "
+    "consumed), a global order is proposed from the recorder's stamps and the exact old->new chains (untrusted), and the Coq "
+    "scheduler takes an action only if the model state holds the value the implementation observed, the model step is enabled "
+    "and it produces the recorded words, program point, latched and delivered value; the model must end in the recorded final "
+    "words with all threads idle; the boolean invariant inv_b (proved to follow from the proved invariant) is evaluated on every "
+    "state.  C15_replay_reach: whatever it is given, the scheduler only takes model steps.  Loads and failed compare-exchanges "
+    "inside rmw loops, flag loads outside the modelled tests, the target-queue push and reference counts are not model steps "
+    "and are skipped by the reading.  A round that is not reproduced with the first order proposal is tried with up to eight "
+    "others before it is reported",
     "boundary of (B): the target queue is a counter of how many times the source sits in it and any idle thread may pop it; that "
-    "the target queue eventually invokes what sits in it is C01 for the target.  Scope of (B): activated, installed source; up to "
-    "62 nested suspensions (no side counter), no over-resume; cancellation only as the flag (life cycle: C16)",
+    "the target queue eventually invokes what sits in it is C01 for the target.  Scope of (B): from the source as created (inactive) "
+    "through activation, role inheritance and installation; up to 62 nested suspensions (no side counter), no over-resume; "
+    "cancellation only as the flag (life cycle: C16)",
     "atomicity: each os_atomic_* operation / each successful compare-exchange of an rmw loop is one step; sequentially consistent "
     "interleaving (all data operations are relaxed RMWs on one word, whose modification order is total in C11 as well)",
     "dispatch_source_get_data inside the handler returns the ds_data stored by latch_and_call (checked on every recorded call)",
